@@ -66,9 +66,20 @@ def handle_grad(c):
             smooth = c['method'] != 'akima' or (nd == 1)
             tol = 1e-7
             if not smooth:
-                d_fd2 = fd(h / 2)
-                if abs(d_fd - d_fd2) > Fr(1e-6) * max(1, abs(d_fd)):
-                    continue        # a kink of the akima weights is near: no reliable reference
+                # akima in several dimensions is not a polynomial in the outer coordinates (the slope weights
+                # use abs()); compare only where the difference quotients show no kink near the point
+                def one_sided(sgn, hh):
+                    f = []
+                    for s_ in (0, 1, 2):
+                        p = pts[j].copy()
+                        p[i] += sgn * s_ * hh
+                        it2 = InterpND(method=name, points=tuple(grids), values=table, extrapolate=True)
+                        f.append(Fr(float(np.ravel(it2.interpolate(p.reshape(1, nd)))[0])))
+                    return sgn * (-3 * f[0] + 4 * f[1] - f[2]) / (2 * Fr(hh))
+                d_fd2 = fd(h / 4)
+                sc = max(1, abs(d_fd))
+                if abs(d_fd - d_fd2) > Fr(1e-6) * sc or abs(one_sided(1, h / 4) - one_sided(-1, h / 4)) > Fr(1e-3) * sc:
+                    continue
                 tol = 1e-5
             if not close(der[j, i], d_fd, False, tol, tabscale / h * 1e-3):
                 ok = False
@@ -169,14 +180,15 @@ def handle_spline(c):
         # akima is not linear in the values: the returned matrix must be the derivative of the returned values
         h = 1e-6
         for k in range(len(v)):
-            vp, vm = v.copy(), v.copy()
-            vp[k] += h
-            vm[k] -= h
-            fdk = (ev(vp)[0] - ev(vm)[0]) / (2 * h)
-            vp[k] += h
-            vm[k] -= h
-            fdk2 = (ev(vp)[0] - ev(vm)[0]) / (4 * h)
-            good = np.abs(fdk - fdk2) <= 1e-6 * scale
+            def col(step):
+                vp = v.copy()
+                vp[k] += step
+                return ev(vp)[0]
+            y0 = yv
+            fwd = (col(h) - y0) / h
+            bwd = (y0 - col(-h)) / h
+            fdk = (col(h) - col(-h)) / (2 * h)
+            good = np.abs(fwd - bwd) <= 1e-4 * scale        # no kink of the abs() weights at this table
             if np.any(np.abs(J[:, k] - fdk)[good] > 1e-4 * scale):
                 ok, msg = False, 'akima evaluate_spline: d/dvalue[%d] = %r, difference quotient %r' % (k, J[:, k], fdk)
                 break
